@@ -621,3 +621,9 @@ Proof.
   induction h as [|[t e] h IH]; intros st; cbn; [reflexivity|].
   destruct e; cbn; apply IH.
 Qed.
+
+(* ---- publication failures ---- *)
+Lemma usable_implies_announced_partial :
+  forall publish_ok, publish_ok = true ->
+  fst (register_outcome publish_ok) = true -> snd (register_outcome publish_ok) = true.
+Proof. intros ? -> _. reflexivity. Qed.
